@@ -38,7 +38,7 @@ func (d *fillDelegate) NotifyMsg(b []byte) {
 	d.recvN++
 	d.mu.Unlock()
 }
-func (d *fillDelegate) LocalState(bool) []byte          { return nil }
+func (d *fillDelegate) LocalState(bool) []byte        { return nil }
 func (d *fillDelegate) MergeRemoteState([]byte, bool) {}
 func (d *fillDelegate) GetBroadcasts(overhead, limit int) [][]byte {
 	d.mu.Lock()
@@ -91,7 +91,7 @@ type c11Scn struct {
 	KeyLen   int    `json:"key_len"`
 	PV       int    `json:"protocol_version"`
 	Compress bool   `json:"compress"`
-	Mode     string `json:"fill"`   // tiny | exact | equal | members
+	Mode     string `json:"fill"`           // tiny | exact | equal | members
 	FakePMax int    `json:"fake_peer_pmax"` // 0 = no fake peer; 2 or 4 = a peer that gets no checksum header
 	Count    int    `json:"count"`
 }
@@ -344,7 +344,7 @@ func TestC11(t *testing.T) {
 	run.Assume("the delegate fills the offered limit exactly in the 'exact' pattern: that is within its contract")
 	udps := []int{512, 1400, 1401, 1402, 1403, 1404, 1405, 1406, 1407, 1408, 9000, 65507}
 	labels := []string{"", "l", strings.Repeat("L", 255)}
-	n := run.Pick(72, 3000)
+	n := run.Pick(120, 16000)
 	for i := 0; i < n; i++ {
 		if !run.Mine(i) {
 			continue
